@@ -387,9 +387,9 @@ def fix_starred_imports(source: str) -> str:
         elif not (name.startswith("__") and name.endswith("__")):  # Like __file__
             untraced_names.add(name)
 
-    # The names are traced to the last starred import that provides them. An earlier starred
-    # import that provides them as well does so for the code between the two.
-    traced_names = sorted(set().union(*starred_import_name_mapping.values()))
+    # The names are traced to the last place in the file that binds them, in whatever scope.
+    # A starred import that provides them as well does so for the code that follows it.
+    traced_names = sorted(undefined_names | _get_referenced_names(root))
     for node in template:
         node_source = core.get_code(node, source)
         if node_names := {name for name in traced_names if trace_origin(name, node_source)}:
